@@ -25,6 +25,7 @@ import (
 	"github.com/scionproto/scion/pkg/scrypto/signed"
 	seg "github.com/scionproto/scion/pkg/segment"
 	"github.com/scionproto/scion/private/segment/segverifier"
+	infra "github.com/scionproto/scion/private/segment/verifier"
 	"github.com/scionproto/scion/private/storage/db"
 	"github.com/scionproto/scion/private/storage/trust/sqlite"
 	"github.com/scionproto/scion/private/trust"
@@ -1074,6 +1075,116 @@ func c24Run(r *mc.Run, budget *atomic.Bool) {
 		}
 		r.Extra["cached_cross_identity_histories"] = len(warmups) * len(identCases)
 	}
+	// ---------- Part G: the asynchronous unit path (StartVerification / Unit.Verify) under cancellation ----------
+	// The segment handler verifies through units whose result is read with UnitResult.SegError(). Every entry
+	// verification takes 10 ms of bubble time (a verifier that has to wait for trust material); the context is
+	// cancelled before the call, has a deadline in the middle of the k-th of n entry verifications (k = 0..n-1), after
+	// all of them, or none. Oracle: a unit reported without segment error must have completed a successful
+	// verification of every entry, and must never be an invalid segment; without cancellation the verdict is the
+	// history-free one.
+	{
+		const step = 10 * time.Millisecond
+		forgedAt := func(n, pos int) *cppb.PathSegment {
+			es := chainOf(n, 63, -1)
+			forger := creds[(pos+1)%3] // never the AS itself
+			es[pos].key, es[pos].alg, es[pos].claimIA, es[pos].claimSKID = forger.cert.Key, forger.alg, creds[pos].ia, creds[pos].cert.X.SubjectKeyId
+			return c24RefBuild(c24Info(ts, 0x7000), es, now)
+		}
+		type unitSeg struct {
+			what  string
+			ps    *cppb.PathSegment
+			valid bool
+		}
+		var usegs []unitSeg
+		for _, n := range []int{1, 3} {
+			usegs = append(usegs, unitSeg{fmt.Sprintf("honest %d-entry segment", n), c24RefBuild(c24Info(ts, 0x7000), chainOf(n, 63, -1), now), true})
+			for pos := 0; pos < n; pos++ {
+				usegs = append(usegs, unitSeg{fmt.Sprintf("%d-entry segment, entry %d signed with another AS's key", n, pos), forgedAt(n, pos), false})
+			}
+		}
+		unitCases := 0
+		for _, us := range usegs {
+			n := len(us.ps.AsEntries)
+			type cancel struct {
+				what     string
+				pre      bool
+				deadline time.Duration // 0 = none
+			}
+			cancels := []cancel{{"never cancelled", false, 0}, {"cancelled before the call", true, 0}}
+			for k := 0; k <= n; k++ {
+				cancels = append(cancels, cancel{fmt.Sprintf("deadline during entry verification %d of %d", k+1, n), false, time.Duration(k)*step + step/2})
+			}
+			cancels[len(cancels)-1].what = "deadline after all entry verifications"
+			for _, cn := range cancels {
+				for _, honourCtx := range []bool{false, true} {
+					for _, api := range []string{"StartVerification", "Unit.Verify"} {
+						if budget.Load() {
+							return
+						}
+						parsed, err := seg.SegmentFromPB(c24ClonePB(us.ps))
+						if err != nil {
+							r.HarnessError("unit segment does not parse: %v", err)
+							return
+						}
+						ctx, cancelFn := context.WithCancel(context.Background())
+						if cn.deadline > 0 {
+							ctx, cancelFn = context.WithTimeout(context.Background(), cn.deadline)
+						}
+						if cn.pre {
+							cancelFn()
+						}
+						st := &c24SlowState{}
+						sv := c24SlowVerifier{inner: store.verifier(nil), step: step, honourCtx: honourCtx, st: st}
+						var res segverifier.UnitResult
+						p := mc.Safely(func() {
+							if api == "StartVerification" {
+								ch, cnt := segverifier.StartVerification(ctx, sv, c24Server, []*seg.Meta{{Segment: parsed, Type: seg.TypeDown}})
+								if cnt != 1 {
+									r.HarnessError("StartVerification announced %d units", cnt)
+								}
+								res = <-ch
+							} else {
+								ch := make(chan segverifier.UnitResult, 1)
+								(&segverifier.Unit{SegMeta: &seg.Meta{Segment: parsed, Type: seg.TypeDown}}).Verify(ctx, sv, c24Server, ch)
+								res = <-ch
+							}
+						})
+						okAtReport := st.ok.Load()
+						callsAtReport := st.calls.Load()
+						cancelFn()
+						time.Sleep(time.Second) // let a verification goroutine that is still running finish (bubble time)
+						synctest.Wait()
+						r.CaseBulk(1, 1)
+						unitCases++
+						what := fmt.Sprintf("%s via %s, %s, slow verifier %s the context while waiting", us.what, api, cn.what,
+							map[bool]string{true: "honours", false: "ignores"}[honourCtx])
+						if p != nil {
+							viol("panic", map[string]any{"case": what, "panic": fmt.Sprint(p)})
+							continue
+						}
+						serr := res.SegError()
+						switch {
+						case serr == nil && !us.valid:
+							viol("unit-invalid-segment-reported-verified", map[string]any{"case": what, "errors_map": fmt.Sprint(res.Errors),
+								"entry_verifications_started": callsAtReport, "succeeded": okAtReport})
+						case serr == nil && okAtReport < int64(n):
+							viol("unit-reported-verified-before-verification-completed", map[string]any{"case": what, "errors_map": fmt.Sprint(res.Errors),
+								"entry_verifications_succeeded_when_reported": okAtReport, "entries": n})
+						case serr != nil && us.valid && !cn.pre && cn.deadline == 0:
+							viol("unit-honest-segment-rejected", map[string]any{"case": what, "error": serr.Error()})
+						case serr == nil:
+							r.Outcome("unit:verified")
+						case us.valid:
+							r.Outcome("unit:honest-segment-not-verified-because-cancelled")
+						default:
+							r.Outcome("unit:error")
+						}
+					}
+				}
+			}
+		}
+		r.Extra["unit_cancellation_cases"] = unitCases
+	}
 	r.Extra["max_entries"] = maxN
 	r.Extra["byte_masks"] = fmt.Sprintf("%x", masks)
 	r.Assumptions = []string{
@@ -1093,6 +1204,54 @@ func c24Twin(sig []byte, key *ecdsa.PrivateKey) ([]byte, error) {
 	}
 	v.S = new(big.Int).Sub(key.Curve.Params().N, v.S)
 	return asn1.Marshal(v)
+}
+
+// c24SlowVerifier wraps the real verifier: every Verify call first waits `step` of (bubble) time, as a verifier that
+// has to fetch trust material would; it either ignores the context while waiting or gives up with ctx.Err().
+type c24SlowState struct {
+	calls, ok atomic.Int64
+}
+
+type c24SlowVerifier struct {
+	inner     infra.Verifier
+	step      time.Duration
+	honourCtx bool
+	st        *c24SlowState
+}
+
+func (v c24SlowVerifier) Verify(ctx context.Context, m *cryptopb.SignedMessage, ad ...[]byte) (*signed.Message, error) {
+	v.st.calls.Add(1)
+	if v.honourCtx {
+		t := time.NewTimer(v.step)
+		defer t.Stop()
+		select {
+		case <-t.C:
+		case <-ctx.Done():
+			return nil, ctx.Err()
+		}
+	} else {
+		time.Sleep(v.step)
+	}
+	msg, err := v.inner.Verify(ctx, m, ad...)
+	if err == nil {
+		v.st.ok.Add(1)
+	}
+	return msg, err
+}
+
+func (v c24SlowVerifier) WithServer(a net.Addr) infra.Verifier {
+	v.inner = v.inner.WithServer(a)
+	return v
+}
+
+func (v c24SlowVerifier) WithIA(ia addr.IA) infra.Verifier {
+	v.inner = v.inner.WithIA(ia)
+	return v
+}
+
+func (v c24SlowVerifier) WithValidity(val cppki.Validity) infra.Verifier {
+	v.inner = v.inner.WithValidity(val)
+	return v
 }
 
 func c24Dump(ps *cppb.PathSegment) string {
